@@ -365,11 +365,18 @@ def main(H, argv=None):
     if evidence_path.exists():
         evidence_path.unlink()
     sys.path.insert(0, str(REPO))
+    if replay:   # read the replay input before stale replay files of earlier runs are cleared
+        ctx.replay_input = json.loads(Path(replay if os.path.isabs(replay) else VERIF / replay).read_text())
+    rdir = VERIF / "replays" / prop
+    if rdir.is_dir():
+        for f in rdir.glob("*.json"):
+            try:
+                f.unlink()
+            except OSError:
+                pass
     known = [k for k in load_known_findings() if k.get("property") == prop and k.get("status") == "known"]
     try:
         info = lean_stage(ctx, H)
-        if replay:
-            ctx.replay_input = json.loads(Path(replay if os.path.isabs(replay) else VERIF / replay).read_text())
         try:
             H.run(ctx)
         finally:
@@ -488,7 +495,7 @@ def main(H, argv=None):
     for ln in lines:
         print(ln)
     print(f"{prop} {tier} seed={seed}: theorems={len(names)} obligations={obligations} discharged={discharged} "
-          f"cases={ctx.evaluations} distinct={len(ctx.distinct)} disagreements={len(ctx.disagreements)} "
+          f"cases={ctx.evaluations} distinct_nontrivial={len(ctx.distinct)} disagreements={len(ctx.disagreements)} "
           f"oracle_failures={len(ctx.failures)} wall={ev['wall_s']}s exit={exit_code}")
     if ctx.broken:
         for b in ctx.broken[:10]:
